@@ -12,17 +12,17 @@ EXPLANATION = ("Per-operation preservation of the representation invariant from 
                "to grow. Since every operation maps well-formed states to well-formed states the invariant holds after any history "
                "(induction over contracts, not a bounded script). Sizes are bounded (K5), hence level 'other', not 'proof'.")
 ASSUMPTIONS = [
-    "bounded: capacity <= 2 (quick) / 3 (thorough), one-character names, stored crystals with 1 atom, added crystal with 2 atoms",
+    "bounded: capacity <= 3 (quick) / 4 (thorough), every fill level 0..capacity, one-character names (stored and added names symbolic), stored crystals with 1 atom, added crystal with 2 atoms; one 25-character name for the copy lemma",
     "assumed libc contracts in executable form: qsort = sorted permutation of exactly the range passed, bsearch = found <=> present",
     "A-libm: sqrt/cos/pow are unknown pure functions (the recomputed volume is compared by congruence)",
     "Crystal_ReadFile (fopen/fgets/sscanf) is not covered: no CBMC model of stdio",
-    "additions into a NON-EMPTY array (duplicate rejection, sorted insertion next to existing entries) are attempted in the thorough tier only: no back end finishes; the quick tier decides additions into empty arrays of every capacity (incl. growth), lookups, lists, copies and frees for every shape",
+    "additions into a non-empty array are checked on arrays whose stored names and atoms live in static objects of the harness (no leak check in those groups; releasing everything is checked by the lookup/list lemmas on heap-allocated arrays)",
 ]
 
 
 def groups(sc, tier):
     common.prepare(sc)
-    n = 3 if tier == "thorough" else 2
+    n = 4 if tier == "thorough" else 3
     kw = dict(sources=["src/crystal_diffraction.c", "src/xrayvars.c", "src/xraylib-aux.c"], extra=["harness/h_crystal.c", "harness/libm_uf.c"],
               export_local=True, harness_defines=["-DNALLOC=%d" % n], backends=("sat", "cvc5", "z3"), timeout=1800, unwind=n + 3, leak_check=True, object_bits=10,
               bounded="capacity <= %d, 1-character names, 1 / 2 atoms" % n)
@@ -38,13 +38,12 @@ def groups(sc, tier):
             kw2["harness_defines"] = kw["harness_defines"] + ["-DSHAPE_NA=%d" % na, "-DSHAPE_NC=%d" % nc]
             kw2["bounded"] = "capacity %d, %d stored crystals (1-character names, 1 / 2 atoms)" % (na, nc)
             if nc > 0:
-                kw2["harness_defines"] = kw2["harness_defines"] + ["-DSTATIC_STORE"] + ([] if tier == "thorough" else ["-DCONCRETE_NAMES"])
+                kw2["harness_defines"] = kw2["harness_defines"] + ["-DSTATIC_STORE"]
                 kw2["leak_check"] = False
-                kw2["bounded"] += "; stored names symbolic" if tier == "thorough" else "; stored names are the constants b, d (added name symbolic)"
+                kw2["bounded"] += "; stored and added names symbolic"
             gs.append(Group("C14.K5.AddCrystal.cap%d_fill%d" % (na, nc), "K5", "lemma_AddCrystal",
                             functions=["Crystal_AddCrystal", "Crystal_ExtendArray", "Crystal_MakeCopy", "Crystal_ArrayFree", "Crystal_UnitCellVolume"],
                             expect_canaries=(["added"] + (["growth"] if nc == na else []) + (["duplicate"] if nc > 0 else [])),
-                            attempt_only=(nc > 0),   # additions into a non-empty array: no back end finishes within 30 min; thorough tier, attempted
                             **kw2))
             kw2 = dict(kw)
             kw2["harness_defines"] = kw["harness_defines"] + ["-DSHAPE_NA=%d" % na, "-DSHAPE_NC=%d" % nc]
